@@ -20,6 +20,15 @@ TRUSTED = ["Lean 4.33.0 kernel", "axioms: propext, Classical.choice, Quot.sound 
            "interpretation; the tie uses a small concrete expression language), petgraph's condensation (validated by validOrder)"]
 
 
+def history(inst, pid, inp):
+    """run() on one instance, then the same on a second instance whose Lean side is the physical-index engine model
+    (`eng runp`: Model/EnginePhys.lean; for the real code both are run())"""
+    ops = []
+    for i, op in ((inst, "run"), (inst + "p", "runp")):
+        ops += [f"eng new {i} {pid}"] + engcheck.load_ops(i, inp) + [f"eng {op} {i}", f"eng dump {i}", f"eng iters {i}"]
+    return ops
+
+
 def check(tier, replay=None):
     r = core.Report("C01", tier)
     rng = core.SplitMix(core.seed()).fork("ENG")
@@ -39,13 +48,13 @@ def check(tier, replay=None):
         progs[pid] = eng.from_json(c["prog"])
         for j, inp in enumerate(c["inputs"]):
             inp = eng.from_json(inp); inst = f"{pid}_{j}"
-            cases.append(engcheck.Case(pid, inst, [f"eng new {inst} {pid}"] + engcheck.load_ops(inst, inp) + [f"eng run {inst}", f"eng dump {inst}", f"eng iters {inst}"], {"inp": inp}))
+            cases.append(engcheck.Case(pid, inst, history(inst, pid, inp), {"inp": inp}))
     for pid, p in progs.items():
         if pid.startswith("c"): continue
         for j in range(ninp):
             inp = gen.gen_input(rng.fork(f"{pid}i{j}"), p)
             inst = f"{pid}_{j}"
-            cases.append(engcheck.Case(pid, inst, [f"eng new {inst} {pid}"] + engcheck.load_ops(inst, inp) + [f"eng run {inst}", f"eng dump {inst}", f"eng iters {inst}"], {"inp": inp}))
+            cases.append(engcheck.Case(pid, inst, history(inst, pid, inp), {"inp": inp}))
     res = engcheck.run_cases(r, "c01", progs, cases, model=proof.ok or os.path.exists(core.lean_driver()))
     if res is None: return r.finish(TRUSTED)
     outs, (pimpl, pmod) = res
@@ -57,13 +66,15 @@ def check(tier, replay=None):
         spec = engcheck.spec_sets(p, c.meta["inp"])
         def oracle(_l, out, spec=spec, p=p, c=c):
             lines = out.split("\n")
-            dump = lines[-2]
-            if dump.startswith("panic") or not dump.startswith("r0:"): return f"run/dump failed: {dump}"
-            sets, mult = engcheck.dump_sets(dump)
-            for rel in range(len(p["rels"])):
-                got, exp = sets.get(rel, set()), spec[rel]
-                if got != exp:
-                    return f"relation r{rel}: missing {sorted(exp - got)[:5]} unexpected {sorted(got - exp)[:5]} (least model has {len(exp)} tuples)"
+            for k, o in enumerate(c.ops):
+                if not o.startswith("eng dump"): continue
+                dump = lines[k] if k < len(lines) else "no-output"
+                if dump.startswith("panic") or not dump.startswith("r0:"): return f"run/dump failed: {dump}"
+                sets, mult = engcheck.dump_sets(dump)
+                for rel in range(len(p["rels"])):
+                    got, exp = sets.get(rel, set()), spec[rel]
+                    if got != exp:
+                        return f"relation r{rel}: missing {sorted(exp - got)[:5]} unexpected {sorted(got - exp)[:5]} (least model has {len(exp)} tuples)"
             return None
         text = f"eng prog {c.pid} {eng.sx_prog(p)}\n" + "\n".join(c.ops)
         nt = any(len(spec[rel]) > len({eng.sx_tuple(t) for t in c.meta['inp'].get(rel, [])}) for rel in spec)
